@@ -206,3 +206,39 @@ func TestSKRoundTrip(t *testing.T) {
 		}
 	})
 }
+
+// Known answers that do not come from this harness: the vectors pinned in the repository's own tests, re-used purely
+// as data (typed in, not imported).
+func TestKnownAnswersFromTheRepositorysVectors(t *testing.T) {
+	hx := func(s string) []byte { b, _ := hex.DecodeString(s); return b }
+	k := DeriveIKE(Prfs[1], Integs[1], Encrs[2], []byte{1, 2, 3, 4}, []byte{5, 6, 7, 8}, 0x456, 0x123)
+	for _, c := range []struct {
+		name string
+		got  []byte
+		want string
+	}{{"SK_d", k.D, "276e1a8f0d65dae5309da66277ff7c82d39a8956"}, {"SK_ai", k.Ai, "58a17edd463b4b5062359c1c98b1736d80219691"},
+		{"SK_ar", k.Ar, "eb2e18e9a8f9643ea0d0107a28cf5947ecd1597e"}, {"SK_ei", k.Ei, "3dcbcbb2d71d1806d5e5356a5600727eb482101de1868ae9cf71c4117d22cddb"},
+		{"SK_er", k.Er, "ba3b43cf173435c449f3098c01944f2d9a66c2ca1d967f06a69f36e945a4754b"}, {"SK_pi", k.Pi, "aff4def6c9113c6942f31fa2d8b74f6c054e0e73"},
+		{"SK_pr", k.Pr, "c06bd0c0dd3e0b3f9c5b4cbe35c88fdd3948430f"}} {
+		if hex.EncodeToString(c.got) != c.want {
+			t.Fatalf("%s = %x, pinned vector %s", c.name, c.got, c.want)
+		}
+	}
+	// PRF' (TS 33.501 style vector pinned in eap tests)
+	mk := PRFPrime(append(hx("4bf4f64b21b59444277f2c60c417d4c7"), hx("403075840723643618b6fae83236c86d")...), []byte("EAP-AKA'208930123456789"), 208)
+	if hex.EncodeToString(mk[:16]) != "d2e0e54aa01d48959e38ca1aff6c38fb" || hex.EncodeToString(mk[16:48]) != "a56e1733adf3747cfe045dacebedeb33dd53e0f5200f6697c0855e2f856c4e40" ||
+		hex.EncodeToString(mk[48:80]) != "c362f256003483d0766bf877191741254446986158e66d57fcdc251d531fdec4" {
+		t.Fatalf("PRF' differs from the pinned vector")
+	}
+	// AT_MAC vector: Response id 64, Challenge, AT_RES e2f5c0ab3685b3b4, AT_CHECKCODE empty
+	e := model.EAP{Code: 2, Identifier: 64, Kind: model.EAka, Sub: 1, Attrs: []model.AkaAttr{
+		{Type: model.AT_RES, Value: hx("e2f5c0ab3685b3b4")}, {Type: model.AT_MAC, Value: make([]byte, 16)}, {Type: model.AT_CHECKCODE, Value: nil}}}
+	w, err := EncodeEAP(e, nil)
+	if err != nil {
+		t.Fatal(err)
+	}
+	mac := HMAC(SHA256, hx("7e28ba2f666944737f6c8a0a008e834895206a02725b5b4b925a399ae6f09cf0"), w)[:16]
+	if hex.EncodeToString(mac) != "fd69971493e2b7f873a06e72e2051e8a" {
+		t.Fatalf("AT_MAC over the reference encoding = %x, pinned vector fd69971493e2b7f873a06e72e2051e8a", mac)
+	}
+}
